@@ -94,6 +94,28 @@ struct derived_promise : promise<T> {
 static int g_bind_end = 0;   // 0 none, 1 call, 2 move+call, 3 drop (see Scn::bind_end)
 static int g_bind_val = 0;
 
+// ---- pointer-level digest (case kind `chainp`; lean/CoclsModel/ChainPtr.lean, lean/Drivers/C02P.lean) ---------------------------
+// After every operation line (`s ...`) one more line `p head=<ptr> n<i>=<ptr> ...` shows the REAL pointer state: the future's awaiter
+// slot and the `_next` field of every waiter node the harness knows to be alive (canonical names null / ready / w<i>, never
+// addresses); after every `obs w<i>` of a non-blocking waiter a line `po w<i> n=<ptr>` shows that waiter's own `_next` at the moment
+// it reads the result.  Nothing of this is printed for case kind `chain`, whose output is unchanged.
+static bool g_ptr = false;
+static std::function<void(const std::string &)> g_after_line;
+// the shim's log stream, line by line: every line goes to std::cout unchanged, then the hook may add lines
+struct LineTap : std::streambuf {
+    std::string buf;
+    int overflow(int ch) override {
+        if (ch == traits_type::eof()) return 0;
+        if (ch == '\n') {
+            std::string l;
+            l.swap(buf);
+            std::cout << l << "\n";
+            if (g_after_line) g_after_line(l);
+        } else buf.push_back((char)ch);
+        return ch;
+    }
+};
+
 template <typename T>
 struct Scn {
     using FT = future<T>;
@@ -103,6 +125,59 @@ struct Scn {
     std::string pwd_kind;                  // "" (plain promise), "def", "defv", "defvp"
     int pwd_val = 0;
     std::vector<int> obs_count;
+
+    // pointer-level bookkeeping (case kind `chainp` only)
+    std::vector<awaiter *> node_ptr;       // coroutine / has_value / callback waiters: their awaiter node from construction until the result is read
+    std::vector<std::string> wkind;        // "" for non-waiters
+    std::vector<char> passed, refused;     // blocking waiters: passed flag.wait / saw `ready` in the CAS (the stack node is about to go)
+    std::vector<awaiter *> ever;           // the address each waiter's node has / had: only to NAME a (possibly stale) pointer, never dereferenced
+    void reg(int w, awaiter *a) { if (g_ptr) { node_ptr[w] = a; ever[w] = a; } }
+    // the stack sync_awaiter of blocking waiter w, while it exists: found through the shim's registry of live atomics (its flag is `a<w>.0`)
+    awaiter *sync_node(int w) {
+        static sync_awaiter probe;
+        static const std::ptrdiff_t off = reinterpret_cast<char *>(&probe.flag) - reinterpret_cast<char *>(static_cast<awaiter *>(&probe));
+        std::string nm = "a" + std::to_string(w) + ".0";
+        for (auto &kv : S().obj_names)
+            if (kv.second == nm) {
+                auto a = reinterpret_cast<awaiter *>(const_cast<char *>(static_cast<const char *>(kv.first)) - off);
+                if (w < (int)ever.size()) ever[w] = a;
+                return a;
+            }
+        return nullptr;
+    }
+    std::string pname(awaiter *a) {
+        if (!a) return "null";
+        if (a == &awaiter::disabled) return "ready";
+        for (std::size_t i = 0; i < wkind.size(); i++) {
+            if (wkind[i].empty()) continue;
+            awaiter *n = wkind[i] == "sync" ? sync_node((int)i) : node_ptr[i];
+            if (n && n == a) return "w" + std::to_string(i);
+        }
+        // a stale pointer (the expected value a failed CAS left in an unpublished node may name a waiter that is gone by now)
+        for (std::size_t i = 0; i < ever.size(); i++)
+            if (ever[i] == a) return "w" + std::to_string(i);
+        return "?";
+    }
+    void after_line(const std::string &l) {
+        if (l.size() < 2 || l[0] != 's' || l[1] != ' ') return;
+        auto w = split(l);
+        if (w.size() >= 3) {
+            int t = atoi(w[1].c_str());
+            if (t >= 0 && t < (int)wkind.size() && wkind[t] == "sync") {
+                if (w[2] == "wait-pass") passed[t] = 1;
+                if (w.size() >= 5 && w[2] == "cas-" && w[3] == "slot" && w[4].rfind("ready>", 0) == 0) refused[t] = 1;
+            }
+        }
+        std::string d = "p head=" + pname(fut->_awaiter.raw());
+        for (std::size_t i = 0; i < wkind.size(); i++) {
+            if (wkind[i].empty()) continue;
+            awaiter *n = nullptr;
+            if (wkind[i] == "sync") { if (!passed[i] && !refused[i]) n = sync_node((int)i); }
+            else n = node_ptr[i];
+            if (n) d += " n" + std::to_string(i) + "=" + pname(n->_next);
+        }
+        std::cout << d << "\n";
+    }
 
     void kill_prom() {
         if (prom) { auto d = std::move(prom_deleter); prom = nullptr; d(); }
@@ -179,10 +254,15 @@ struct Scn {
     void obs(int w, const std::string &what) {
         obs_count[w]++;
         log("obs w" + std::to_string(w) + " " + what);
+        if (g_ptr && node_ptr[w]) {
+            log("po w" + std::to_string(w) + " n=" + pname(node_ptr[w]->_next));
+            node_ptr[w] = nullptr;     // from here on the frame / closure that holds the node may go
+        }
     }
 
     async<void> coro_waiter(int w) {
         auto awt = fut->operator co_await();
+        reg(w, &awt);
         if constexpr (std::is_void_v<T>) {
             std::string r;
             try { co_await awt; r = "v"; }
@@ -198,6 +278,14 @@ struct Scn {
         }
     }
     async<void> hasv_waiter(int w) {
+        if (g_ptr) {
+            // the same awaiter as a named local, so that the harness can look at its `_next`
+            auto awt = fut->has_value();
+            reg(w, &awt);
+            bool b = co_await awt;
+            obs(w, std::string("hv:") + (b ? "1" : "0"));
+            co_return;
+        }
         bool b = co_await fut->has_value();
         obs(w, std::string("hv:") + (b ? "1" : "0"));
     }
@@ -232,6 +320,7 @@ struct Scn {
             }
         } else if (kind == "cb") {
             auto c = new cb_ctx{this, w, fut->operator co_await()};
+            reg(w, &c->awt);
             if (c->awt.await_ready() || !c->awt.await_suspend(&cb_fn, c)) {
                 obs(w, observe([&]() -> decltype(auto) { return c->awt.await_resume(); }));
                 delete c;
@@ -356,6 +445,19 @@ struct Scn {
         S().name_ptr(&awaiter::instance, "inst");
         S().name_ptr(&awaiter::disabled, "ready");
         obs_count.assign(threads.size(), 0);
+        static LineTap tap;
+        static std::ostream tap_stream(&tap);
+        if (g_ptr) {
+            node_ptr.assign(threads.size(), nullptr);
+            ever.assign(threads.size(), nullptr);
+            passed.assign(threads.size(), 0);
+            refused.assign(threads.size(), 0);
+            wkind.clear();
+            for (auto &t : threads) wkind.push_back(t[0] == "w" ? t[1] : std::string());
+            (void)sync_node(0);     // construct the probe before the run starts
+            g_after_line = [this](const std::string &l) { after_line(l); };
+            S().out = &tap_stream;
+        }
         int tid = 0;
         std::vector<int> resolvers;
         for (std::size_t i = 0; i < threads.size(); i++)
@@ -456,6 +558,7 @@ static void run_case(const std::vector<std::string> &hdr, const std::vector<std:
         else if (w[0] == "sched") for (std::size_t i = 1; i < w.size(); i++) sched.push_back(atoi(w[i].c_str()));
         else if (w[0] == "keep-promise") destroy = false;
     }
+    g_ptr = hdr.size() > 2 && hdr[2] == "chainp";
     std::string T = hdr.size() > 3 ? hdr[3] : "int";
     if (T == "int") { Scn<int> s; s.assign_end = assign_end; s.assign_from_val = assign_from; s.pwd_kind = pwd_kind; s.pwd_val = pwd_val; s.run(threads, sched, destroy); }
     else if (T == "void") { Scn<void> s; s.assign_end = assign_end; s.assign_from_val = assign_from; s.pwd_kind = pwd_kind; s.pwd_val = pwd_val; s.run(threads, sched, destroy); }
